@@ -230,6 +230,8 @@ BUILTINS = {
     'filter': Builtin('filter', b_filter), 'getattr': Builtin('getattr', b_getattr),
     'None': None, 'True': True, 'False': False,
 }
+for _t in ('str', 'float', 'dict', 'set', 'object', 'bytes', 'frozenset'):
+    BUILTINS.setdefault(_t, PType(_t))
 for _e in ('ValueError', 'TypeError', 'KeyError', 'IndexError', 'Exception', 'RuntimeError', 'AttributeError',
            'ZeroDivisionError', 'NotImplementedError', 'StopIteration', 'AssertionError', 'LookupError',
            'BaseException'):
